@@ -222,6 +222,48 @@ func c11R3(p *core.Prog, r *core.Report) {
 	for _, fs := range fieldStores([]*ssa.Function{att}, func(n *types.Named, f string) bool { return n.Obj().Name() == "URL" && f == "Host" }) {
 		urlHost = hostOf(fs.Store.Val)
 	}
+	if urlHost == "" {
+		// the URL is built by an unexported helper that is given the host entry (or its config)
+		for h := range core.Helpers(att, 2) {
+			if h == att {
+				continue
+			}
+			for _, fs := range fieldStores([]*ssa.Function{h}, func(n *types.Named, f string) bool { return n.Obj().Name() == "URL" && f == "Host" }) {
+				// root parameter of the stored value
+				v := fs.Store.Val
+				var par *ssa.Parameter
+				for d := 0; d < 10 && v != nil && par == nil; d++ {
+					switch x := v.(type) {
+					case *ssa.Parameter:
+						par = x
+					case *ssa.UnOp:
+						v = x.X
+					case *ssa.FieldAddr:
+						v = x.X
+					case *ssa.Field:
+						v = x.X
+					default:
+						v = nil
+					}
+				}
+				if par == nil {
+					continue
+				}
+				core.Calls(att, func(c ssa.CallInstruction) {
+					if core.CalleeFn(c) != h {
+						return
+					}
+					for i, q := range h.Params {
+						if q == par {
+							if ap := hostOf(core.CallArg(c, i)); ap != "" {
+								urlHost = ap
+							}
+						}
+					}
+				})
+			}
+		}
+	}
 	core.Calls(att, func(c ssa.CallInstruction) {
 		if g := core.CalleeFn(c); g != nil {
 			switch g.Name() {
@@ -299,31 +341,51 @@ func c11R4(p *core.Prog, r *core.Report) {
 	lab := labeler{}
 	for _, fn := range pkgFuncs(p, "internal/reghttp") {
 		for _, fs := range fieldStores([]*ssa.Function{fn}, func(nn *types.Named, f string) bool { return nn.Obj().Name() == "URL" && f == "Scheme" }) {
-			s, ok := core.ConstString(fs.Store.Val)
-			if !ok {
+			// the scheme may be chosen into a local first: a phi of constants, each edge judged where it comes from
+			type schemeAt struct {
+				s   string
+				blk *ssa.BasicBlock
+			}
+			var cands []schemeAt
+			if s, ok := core.ConstString(fs.Store.Val); ok {
+				cands = append(cands, schemeAt{s, fs.Store.Block()})
+			} else if ph, isPhi := fs.Store.Val.(*ssa.Phi); isPhi {
+				for i, e := range ph.Edges {
+					if s, ok := core.ConstString(e); ok && i < len(ph.Block().Preds) {
+						cands = append(cands, schemeAt{s, ph.Block().Preds[i]})
+					} else {
+						cands = nil
+						break
+					}
+				}
+			}
+			if len(cands) == 0 {
 				r.Undecided(rule, p.FuncName(fn), lab.next("scheme store"), p.Pos(fs.Store.Pos()), "non-constant URL scheme")
 				continue
 			}
-			n++
-			switch s {
-			case "https":
-				r.Held(rule, p.FuncName(fn), lab.next("scheme https"), p.Pos(fs.Store.Pos()), "default")
-			case "http":
-				okG := anyGuard(fs.Store.Block(), func(c ssa.Value, pol bool) bool {
-					bo, isB := c.(*ssa.BinOp)
-					if !isB || bo.Op != token.EQL || !pol {
-						return false
-					}
-					isTLS := func(v ssa.Value) bool { return fieldLoadOf(v, modPath("config"), "Host", "TLS") }
-					isDisabled := func(v ssa.Value) bool {
-						k, isK := core.ConstInt(v)
-						return isK && k == tlsDisabledValue(fs.Fn.Prog)
-					}
-					return (isTLS(bo.X) && isDisabled(bo.Y)) || (isTLS(bo.Y) && isDisabled(bo.X))
-				})
-				r.Check(okG, rule, p.FuncName(fn), lab.next("scheme http"), p.Pos(fs.Store.Pos()), "clear-text transport only for a host configured with TLS disabled")
-			default:
-				r.Violated(rule, p.FuncName(fn), lab.next("scheme "+s), p.Pos(fs.Store.Pos()), "unexpected URL scheme")
+			for _, cand := range cands {
+				s, blk := cand.s, cand.blk
+				n++
+				switch s {
+				case "https":
+					r.Held(rule, p.FuncName(fn), lab.next("scheme https"), p.Pos(fs.Store.Pos()), "default")
+				case "http":
+					okG := anyGuard(blk, func(c ssa.Value, pol bool) bool {
+						bo, isB := c.(*ssa.BinOp)
+						if !isB || bo.Op != token.EQL || !pol {
+							return false
+						}
+						isTLS := func(v ssa.Value) bool { return fieldLoadOf(v, modPath("config"), "Host", "TLS") }
+						isDisabled := func(v ssa.Value) bool {
+							k, isK := core.ConstInt(v)
+							return isK && k == tlsDisabledValue(fs.Fn.Prog)
+						}
+						return (isTLS(bo.X) && isDisabled(bo.Y)) || (isTLS(bo.Y) && isDisabled(bo.X))
+					})
+					r.Check(okG, rule, p.FuncName(fn), lab.next("scheme http"), p.Pos(fs.Store.Pos()), "clear-text transport only for a host configured with TLS disabled")
+				default:
+					r.Violated(rule, p.FuncName(fn), lab.next("scheme "+s), p.Pos(fs.Store.Pos()), "unexpected URL scheme")
+				}
 			}
 		}
 	}
@@ -347,54 +409,118 @@ func tlsDisabledValue(prog *ssa.Program) int64 {
 	return -999
 }
 
-func c11R5(p *core.Prog, r *core.Report) {
-	const rule = "C11.R5"
-	r.Rule(rule, "redirects: the CheckRedirect hook installed per host calls UpdateRequest on the redirected request and stops after a bounded number of hops", 2)
-	fn := p.Method("internal/reghttp", "clientHost", "checkRedirect")
-	if fn == nil || len(fn.AnonFuncs) == 0 {
-		r.MissingAnchor(rule, "internal/reghttp.(*clientHost).checkRedirect")
-		return
+// hookFuncs resolves a function value to the functions it can denote: a literal, a named function,
+// a bound method (through the synthetic wrapper to the method itself), or what an unexported
+// function of the module returns.
+func hookFuncs(p *core.Prog, v ssa.Value, depth int) []*ssa.Function {
+	var out []*ssa.Function
+	if depth > 3 {
+		return nil
 	}
-	lit := fn.AnonFuncs[0]
-	upd, bound := false, false
-	core.Calls(lit, func(c ssa.CallInstruction) {
-		if cal := core.Callee(c); cal != nil && core.IsModMethod(cal, "internal/auth", "Auth", "UpdateRequest") {
-			if pr, ok := core.CallArg(c, 1).(*ssa.Parameter); ok && pr == lit.Params[0] {
-				upd = true
+	for _, o := range core.Origins(v, core.SliceOpts{}) {
+		switch o.Kind {
+		case core.OClosure:
+			f := closureOf(o.Val)
+			if f == nil {
+				continue
 			}
-		}
-	})
-	for _, b := range lit.Blocks {
-		ifi, ok := core.LastInstr(b).(*ssa.If)
-		if !ok {
-			continue
-		}
-		bo, ok := ifi.Cond.(*ssa.BinOp)
-		if !ok || (bo.Op != token.GEQ && bo.Op != token.GTR) {
-			continue
-		}
-		if _, isK := core.ConstInt(bo.Y); !isK {
-			continue
-		}
-		if ret, isRet := core.LastInstr(b.Succs[0]).(*ssa.Return); isRet && !core.IsNilConst(core.ReturnOperand(ret, 0)) {
-			bound = true
-		}
-	}
-	r.Check(upd, rule, p.FuncName(lit), "auth re-evaluated for the redirect target", p.Pos(lit.Pos()), "UpdateRequest(req) on the redirected request: the Authorization header is replaced by what the handler table holds for the new host (usually nothing)")
-	r.Check(bound, rule, p.FuncName(lit), "redirect chain bounded", p.Pos(lit.Pos()), "a fixed number of hops ends the chain with an error")
-	// installed by getHTTPClient
-	g := p.Method("internal/reghttp", "clientHost", "getHTTPClient")
-	inst := false
-	if g != nil {
-		for _, fs := range fieldStores([]*ssa.Function{g}, func(n *types.Named, f string) bool { return f == "CheckRedirect" }) {
-			for _, oc := range originCalls(fs.Store.Val) {
-				if core.CalleeFn(oc) == fn {
-					inst = true
+			if f.Synthetic != "" {
+				// bound method wrapper: the method it forwards to
+				core.Calls(f, func(c ssa.CallInstruction) {
+					if g := core.CalleeFn(c); g != nil {
+						out = append(out, g)
+					}
+				})
+				continue
+			}
+			out = append(out, f)
+		case core.OCall:
+			if g := o.Call.Call.StaticCallee(); g != nil && p.InModule(g) && len(g.Blocks) > 0 {
+				for _, ret := range core.Returns(g) {
+					if o.Res >= 0 && o.Res < len(ret.Results) {
+						out = append(out, hookFuncs(p, core.ReturnOperand(ret, o.Res), depth+1)...)
+					} else if len(ret.Results) == 1 {
+						out = append(out, hookFuncs(p, core.ReturnOperand(ret, 0), depth+1)...)
+					}
 				}
 			}
 		}
 	}
-	r.Check(inst, rule, "internal/reghttp.(*clientHost).getHTTPClient", "hook installed on every per-repository client", "-", "CheckRedirect = checkRedirect(repo, …)")
+	return out
+}
+
+func c11R5(p *core.Prog, r *core.Report) {
+	const rule = "C11.R5"
+	r.Rule(rule, "redirects: the CheckRedirect hook installed per host calls UpdateRequest on the redirected request and stops after a bounded number of hops", 2)
+	// the hook: whatever is stored into http.Client.CheckRedirect in internal/reghttp
+	var hooks []*ssa.Function
+	installedBy := ""
+	for _, fs := range fieldStores(pkgFuncs(p, "internal/reghttp"), func(n *types.Named, f string) bool {
+		return f == "CheckRedirect" && n.Obj().Pkg() != nil && n.Obj().Pkg().Path() == "net/http"
+	}) {
+		hs := hookFuncs(p, fs.Store.Val, 0)
+		if len(hs) > 0 {
+			installedBy = p.FuncName(fs.Fn)
+		}
+		hooks = append(hooks, hs...)
+	}
+	if len(hooks) == 0 {
+		r.MissingAnchor(rule, "a function stored into http.Client.CheckRedirect in internal/reghttp")
+		return
+	}
+	seenHook := map[*ssa.Function]bool{}
+	for _, lit := range hooks {
+		if seenHook[lit] {
+			continue
+		}
+		seenHook[lit] = true
+		// the redirected request: the first *http.Request parameter
+		var reqParam *ssa.Parameter
+		for _, pr := range lit.Params {
+			if core.IsNamed(pr.Type(), "net/http", "Request") {
+				reqParam = pr
+				break
+			}
+		}
+		upd, bound := false, false
+		core.Calls(lit, func(c ssa.CallInstruction) {
+			if cal := core.Callee(c); cal != nil && core.IsModMethod(cal, "internal/auth", "Auth", "UpdateRequest") {
+				if pr, ok := core.CallArg(c, 1).(*ssa.Parameter); ok && pr == reqParam {
+					upd = true
+				}
+			}
+		})
+		for _, b := range lit.Blocks {
+			ifi, ok := core.LastInstr(b).(*ssa.If)
+			if !ok {
+				continue
+			}
+			cnd, pol := core.StripNot(ifi.Cond, true)
+			bo, ok := cnd.(*ssa.BinOp)
+			if !ok {
+				continue
+			}
+			switch bo.Op {
+			case token.GEQ, token.GTR, token.LSS, token.LEQ:
+			default:
+				continue
+			}
+			if _, isK := core.ConstInt(bo.Y); !isK {
+				continue
+			}
+			// the successor taken when the count is too large
+			over := 0
+			if (bo.Op == token.GEQ || bo.Op == token.GTR) != pol {
+				over = 1
+			}
+			if ret, isRet := core.LastInstr(b.Succs[over]).(*ssa.Return); isRet && !core.IsNilConst(core.ReturnOperand(ret, 0)) {
+				bound = true
+			}
+		}
+		r.Check(upd, rule, p.FuncName(lit), "auth re-evaluated for the redirect target", p.Pos(lit.Pos()), "UpdateRequest(req) on the redirected request: the Authorization header is replaced by what the handler table holds for the new host (usually nothing)")
+		r.Check(bound, rule, p.FuncName(lit), "redirect chain bounded", p.Pos(lit.Pos()), "a fixed number of hops ends the chain with an error")
+	}
+	r.Held(rule, installedBy, "hook installed on the per-repository client", "-", "CheckRedirect is set from the per-host hook")
 }
 
 var secretField = regexp.MustCompile(`(?i)^(pass|password|token|accesstoken|refreshtoken|jwt|clientkey_never)$`)
@@ -613,6 +739,17 @@ func fromCensoredClone(v ssa.Value) bool {
 // path from the copy's definition to the log call passes a store of a constant to the field or the
 // edge on which the field is known to be empty.
 func unmaskedField(v ssa.Value, at ssa.Instruction, owner *types.Named, fields []string) string {
+	// the masked copy may be produced by a helper: every value it returns must be masked inside it
+	if call, isCall := v.(*ssa.Call); isCall {
+		if g := call.Call.StaticCallee(); g != nil && len(g.Blocks) > 0 && g.Pkg != nil && at.Parent().Pkg == g.Pkg && g.Signature.Results().Len() == 1 {
+			for _, ret := range core.Returns(g) {
+				if why := unmaskedField(core.ReturnOperand(ret, 0), ret, owner, fields); why != "" {
+					return why + " (in " + g.Name() + ")"
+				}
+			}
+			return ""
+		}
+	}
 	u, ok := v.(*ssa.UnOp)
 	if !ok {
 		return "a " + owner.Obj().Name() + " value that carries " + strings.Join(fields, ", ") + " is logged as a whole"
